@@ -427,6 +427,10 @@ func (p *Parser) parseUseStmt() ast.Statement {
 		Value: p.parseAliasPathShortcut("layouts"),
 	}
 
+	if !p.expectPeek(token.RPAREN) { // move to ")"
+		return nil
+	}
+
 	p.useStmt = stmt
 
 	return stmt
@@ -445,6 +449,10 @@ func (p *Parser) parseBreakIfStmt() ast.Statement {
 
 	stmt.Condition = p.parseExpression(LOWEST)
 
+	if !p.expectPeek(token.RPAREN) { // move to ")"
+		return nil
+	}
+
 	return stmt
 }
 
@@ -460,6 +468,10 @@ func (p *Parser) parseContinueIfStmt() ast.Statement {
 	p.nextToken() // skip "("
 
 	stmt.Condition = p.parseExpression(LOWEST)
+
+	if !p.expectPeek(token.RPAREN) { // move to ")"
+		return nil
+	}
 
 	return stmt
 }
@@ -632,6 +644,10 @@ func (p *Parser) parseReserveStmt() ast.Statement {
 		Value: p.curToken.Literal,
 	}
 
+	if !p.expectPeek(token.RPAREN) { // move to ")"
+		return nil
+	}
+
 	p.reserves[stmt.Name.Value] = stmt
 
 	return stmt
@@ -664,6 +680,10 @@ func (p *Parser) parseInsertStmt() ast.Statement {
 		p.nextToken() // skip insert name
 		p.nextToken() // skip ","
 		stmt.Argument = p.parseExpression(LOWEST)
+
+		if !p.expectPeek(token.RPAREN) { // move to ")"
+			return nil
+		}
 
 		p.inserts[stmt.Name.Value] = stmt
 		hasBody = false
